@@ -124,6 +124,12 @@ OBJS = {
         "m_ns.TreeB",
     ),
     "child_alone": (lambda: mn.Child(x="solo", y=0), "m_ns.Child"),
+    "holderA": (lambda: mn.HolderA(sub=mn.SubNs(base_field="bf", label="la", code=1), subs=[mn.SubNs(label="l2")]), "m_ns.HolderA"),
+    "holderB": (lambda: mn.HolderB(sub=mn.SubNs(base_field="bg", label="lb", code=2), subs=[mn.SubNs(label="l3")]), "m_ns.HolderB"),
+    "pickA_u1": (lambda: mn.PickA(pick=mn.U1(a=1)), "m_ns.PickA"),
+    "pickA_u2": (lambda: mn.PickA(pick=mn.U2(b="x")), "m_ns.PickA"),
+    "pickB_u1": (lambda: mn.PickB(pick=mn.U1(a=2)), "m_ns.PickB"),
+    "pickB_u2": (lambda: mn.PickB(pick=mn.U2(b="y")), "m_ns.PickB"),
     "thing1": (lambda: s1.Thing(alpha="A", size=3), "m_same1.Thing"),
     "thing2": (lambda: s2.Thing(beta="B", size="big"), "m_same2.Thing"),
     "dup1": (lambda: s1.Dup(first="one"), "m_same1.Dup"),
@@ -239,6 +245,16 @@ _x("hw_wrapB", "m_ns.WrapB", """<w:wrapB xmlns:w="urn:b"><w:kids><w:kid><w:x>1</
 _x("hw_treeA", "m_ns.TreeA", """<treeA xmlns="urn:a"><node name="r"><node name="c"><node name="g"/></node><node name="d"/></node></treeA>""")
 _x("hw_treeB", "m_ns.TreeB", """<treeB xmlns="urn:b"><node name="r"><node name="c"/></node></treeB>""")
 _x("hw_child_alone", "m_ns.Child", """<Child><x>solo</x><y>1</y></Child>""")
+_x("hw_holderA", "m_ns.HolderA", """<holderA xmlns="urn:a" xmlns:b="urn:base"><sub code="1"><b:base_field>f</b:base_field><label>l</label></sub><s><label>m</label></s></holderA>""")
+_x("hw_holderB", "m_ns.HolderB", """<h:holderB xmlns:h="urn:b" xmlns:b="urn:base"><h:sub code="2"><b:base_field>g</b:base_field><h:label>l</h:label></h:sub></h:holderB>""")
+_x("hw_pickA", "m_ns.PickA", """<pickA xmlns="urn:a"><pick><b>x</b></pick></pickA>""")
+_x("hw_pickB", "m_ns.PickB", """<pickB xmlns="urn:b"><pick><a>3</a></pick></pickB>""")
+# values that look like prefixed names but whose prefix is NOT declared in this document
+# (other pool documents bind p, r, o, e, z): well-formed, the value stays a plain string
+_x("hw_item_undeclared_p", "m_basic.Item", """<item xmlns="urn:basic" id="12" refattr="p:zz"><name>n</name><ref>p:first</ref></item>""")
+_x("hw_item_undeclared_r", "m_basic.Item", """<b:item xmlns:b="urn:basic" id="13" refattr="o:zz"><b:name>n</b:name><b:ref>r:somewhere</b:ref></b:item>""")
+_x("hw_order_undeclared", "m_basic.Order", """<order xmlns="urn:basic" number="9" plain="e:val"><item id="1" refattr="p:a"><name>a</name></item></order>""")
+_x("hw_anybox_undeclared", "m_wild.AnyBox", """<w:anyBox xmlns:w="urn:w"><w:head>h</w:head><free b="z:val" c="x:dog">text</free></w:anyBox>""")
 _x("hw_thing1", "m_same1.Thing", """<thing xmlns="urn:s1" size="4"><alpha>A</alpha></thing>""")
 _x("hw_thing2", "m_same2.Thing", """<thing xmlns="urn:s2" size="L"><beta>B</beta></thing>""")
 _x("hw_dup_noclass", None, """<dup xmlns="urn:dup"><first>f</first><second>2</second></dup>""")
